@@ -288,6 +288,16 @@ def r07_5(chk):
                 verdict, why = False, f"guard `{t}`"
             elif ("all(" in t and "last_undo" in t) or ("<=" in t and "last_undo" in t) or "issubset" in t:
                 verdict, why = True, f"guard `{t}`"
+            elif isinstance(node.test, ast.Compare) and "len(" in t and "len(self.last_undo)" in t and isinstance(node.test.ops[0], ast.Eq):
+                verdict, why = True, f"guard `{t}` (as many matches as changes in the last step)"
+            else:
+                # a guard that is the truth value of the matches found (a filtered list / an intersection of last_undo and changes)
+                names = {x.id for x in ast.walk(node.test) if isinstance(x, ast.Name)}
+                for st2 in ast.walk(fn):
+                    if isinstance(st2, ast.Assign) and len(st2.targets) == 1 and isinstance(st2.targets[0], ast.Name) and st2.targets[0].id in names:
+                        v = norm(st2.value)
+                        if "last_undo" in v and "changes" in v and (isinstance(st2.value, (ast.ListComp, ast.SetComp, ast.GeneratorExp)) or "&" in v or "intersection" in v or "filter(" in v) and isinstance(node.test, (ast.Name, ast.Call)):
+                            verdict, why = False, f"guard `{t}` with `{norm(st2)[:70]}` (true as soon as ONE change of the last step is matched)"
     if verdict is None:
         chk.unresolved("R07.5", k, m.loc(top), "undo shortcut guarded by an unrecognised idiom")
     else:
